@@ -51,7 +51,9 @@ func collectSites(v reflect.Value, tag string, path string, out *[]site) {
 		}
 		return
 	case gen.TEnum:
-		if p.VUB != nil && !p.ValExt {
+		// an extensible enumeration too: this release of TS 38.413 defines nothing behind any extension marker, so a
+		// number above the last enumerator denotes no value of the type and cannot be put on the wire either
+		if p.VUB != nil {
 			*out = append(*out, site{path: path, v: v, tag: p, kind: "enum"})
 		}
 		return
@@ -158,6 +160,9 @@ func genRefusal(rt *rapid.T) refusalCase {
 	case "enum":
 		s.v.SetUint(uint64(*s.tag.VUB + 1 + int64(rapid.IntRange(0, 3).Draw(rt, "enumd"))))
 		broken = "enum>ub"
+		if s.tag.ValExt {
+			broken = "extensible-enum>last-enumerator"
+		}
 	case "size":
 		if low && *s.tag.SLB > 0 {
 			setSize(s.v, *s.tag.SLB-1)
